@@ -479,6 +479,17 @@ pub fn panic_msg(e: Box<dyn std::any::Any + Send>) -> String {
 
 thread_local! {
     pub static LAST_PANIC_LOC: std::cell::RefCell<Option<String>> = const { std::cell::RefCell::new(None) };
+    /// > 0 while a call of the subject runs under `catch`: its panics are verdicts and are
+    /// not printed; every other panic is a machinery error and is printed.
+    pub static EXPECT_PANIC: std::cell::Cell<u32> = const { std::cell::Cell::new(0) };
+}
+
+/// Run `f` (a call into the subject) catching its panic as a message
+pub fn catch<R>(f: impl FnOnce() -> R) -> Result<R, String> {
+    EXPECT_PANIC.with(|c| c.set(c.get() + 1));
+    let r = catch_unwind(AssertUnwindSafe(f));
+    EXPECT_PANIC.with(|c| c.set(c.get() - 1));
+    r.map_err(panic_msg)
 }
 
 /// Install a quiet panic hook that records file (without line drift: file:line kept
@@ -488,6 +499,9 @@ pub fn install_panic_hook() {
         let loc = info
             .location()
             .map(|l| format!("{}:{}", l.file(), l.line()));
+        if EXPECT_PANIC.with(|c| c.get()) == 0 {
+            eprintln!("MACHINERY PANIC: {info}");
+        }
         LAST_PANIC_LOC.with(|l| *l.borrow_mut() = loc);
     }));
 }
@@ -532,9 +546,7 @@ impl Sut {
         let classing = cfg.classing.build();
         let policy = classing.policy;
         let meta = unsafe { bufs.meta() };
-        let r = catch_unwind(AssertUnwindSafe(|| {
-            LLFree::new(cfg.frames, init, &classing, meta)
-        }));
+        let r = catch(|| LLFree::new(cfg.frames, init, &classing, meta));
         match r {
             Ok(Ok(alloc)) => Ok(Self {
                 cfg: cfg.clone(),
@@ -543,7 +555,7 @@ impl Sut {
                 policy,
             }),
             Ok(Err(e)) => Err(Res::Err(e.into())),
-            Err(p) => Err(Res::Panic(panic_msg(p))),
+            Err(p) => Err(Res::Panic(p)),
         }
     }
 
@@ -553,15 +565,13 @@ impl Sut {
         let classing = self.cfg.classing.build();
         let meta = unsafe { self.bufs.meta() };
         let frames = self.cfg.frames;
-        match catch_unwind(AssertUnwindSafe(|| {
-            LLFree::new(frames, init, &classing, meta)
-        })) {
+        match catch(|| LLFree::new(frames, init, &classing, meta)) {
             Ok(Ok(alloc)) => {
                 self.alloc = alloc;
                 Ok(())
             }
             Ok(Err(e)) => Err(Res::Err(e.into())),
-            Err(p) => Err(Res::Panic(panic_msg(p))),
+            Err(p) => Err(Res::Panic(p)),
         }
     }
 
@@ -574,9 +584,9 @@ impl Sut {
 
     /// Apply `op`, catching panics
     pub fn apply(&self, op: &Op) -> Res {
-        match catch_unwind(AssertUnwindSafe(|| self.apply_raw(op))) {
+        match catch(|| self.apply_raw(op)) {
             Ok(r) => r,
-            Err(p) => Res::Panic(panic_msg(p)),
+            Err(p) => Res::Panic(p),
         }
     }
 
